@@ -169,7 +169,7 @@ Proof. vm_compute. repeat split; reflexivity. Qed.
 
 (* a capacity error deletes the claim *)
 Example capacity_error :
-  let pl := mkPlan WOk PInsufficient WOk false HReady WOk WOk false WOk WOk WOk WOk WOk WOk WOk false WOk WOk in
+  let pl := mkPlan WOk PInsufficient WOk false HReady WOk WOk false WOk WOk WOk WOk WOk WOk WOk false WOk WOk false false in
   map fr_effs (trace k0 [Rec pl]) = [[EFin WOk; ECreate PInsufficient; EDelLaunch WOk; EPatch WOk; EStatus WOk]] /\
   option_map c_del (pc (final k0 [Rec pl])) = Some true.
 Proof. vm_compute. split; reflexivity. Qed.
@@ -187,7 +187,7 @@ Proof. vm_compute. repeat split; reflexivity. Qed.
 (* the shape real providers produce: the capacity error sits inside a CreateError and an fmt.Errorf
    wrapper; errors.As finds it, the claim is deleted and Launched is left alone *)
 Example wrapped_capacity_error :
-  let pl := mkPlan WOk (PFail [YCreateErr; YWrap; YInsufficient]) WOk false HReady WOk WOk false WOk WOk WOk WOk WOk WOk WOk false WOk WOk in
+  let pl := mkPlan WOk (PFail [YCreateErr; YWrap; YInsufficient]) WOk false HReady WOk WOk false WOk WOk WOk WOk WOk WOk WOk false WOk WOk false false in
   map fr_effs (trace k0 [Rec pl]) =
     [[EFin WOk; ECreate (PFail [YCreateErr; YWrap; YInsufficient]); EDelLaunch WOk; EPatch WOk; EStatus WOk]] /\
   option_map (fun c => (c_del c, c_l c)) (pc (final k0 [Rec pl])) = Some (true, LAwait) /\
